@@ -138,6 +138,10 @@ pub(crate) fn f_mon_fast_fn(node: &Node, env: &Uiua) -> Option<(ValueMonFn, usiz
         static CACHE: RefCell<HashMap<Node, Option<(ValueMonFn, usize)>>>
         = RefCell::new(HashMap::new());
     }
+    #[cfg(feature = "verif_hooks")]
+    if crate::verif::c12::bypassed(crate::verif::c12::ZIP_FAST) {
+        CACHE.with(|cache| cache.borrow_mut().clear());
+    }
     CACHE.with(|cache| {
         if !cache.borrow().contains_key(node) {
             let f_and_depth = f_mon_fast_fn_impl(node, false, env);
